@@ -114,6 +114,9 @@ func solveAll(results []*OblResult, timeoutS int, workers int, order []int) {
 			r.Status = "discharged"
 			for _, pr := range prs {
 				agg.Time += pr.Res.Time
+				if pr.Res.Time > agg.MaxPart {
+					agg.MaxPart = pr.Res.Time
+				}
 				agg.Tried = append(agg.Tried, pr.Res.Tried...)
 				if agg.Solver == "" {
 					agg.Solver = pr.Res.Solver
@@ -282,6 +285,13 @@ func cmdVerify(args []string) {
 		}
 	}
 	if *showAssume {
+		for _, key := range fs.Args() {
+			if fn := p.FindFunc(key); fn != nil {
+				for h, li := range findLoops(fn) {
+					fmt.Printf("%s: loop %d header block %d at %s\n", key, li.ordinal, h.Index, p.Fset.Position(loopPos(h)))
+				}
+			}
+		}
 		for _, fr := range frs {
 			fmt.Printf("%s: abstr=%v unsound=%v\n", fr.Key, fr.Abstr, fr.Unsound)
 		}
